@@ -381,8 +381,13 @@ func shapeOf(ops []*Op) []string {
 // call invokes the server; a panic of the real code is caught and
 // reported as text.
 func (e *env) call(args *nfsv4.Compound4args) (res *nfsv4.Compound4res, pan string) {
+	if e.panicked.Load() {
+		// The server's state is undefined after a panic.
+		return nil, "not sent: the server panicked earlier in this trace"
+	}
 	defer func() {
 		if r := recover(); r != nil {
+			e.panicked.Store(true)
 			pan = fmt.Sprint(r)
 			if common.Env("VERIF_DEBUG", "") != "" {
 				pan += "\n" + string(debug.Stack())
@@ -424,7 +429,7 @@ func (e *env) panicEvent(x int, ops []*Op, msg string, fresh bool) {
 	if i := strings.IndexByte(msg, '\n'); i >= 0 && common.Env("VERIF_DEBUG", "") == "" {
 		msg = msg[:i]
 	}
-	e.tr.Emit(common.Ev{"ev": "panic", "x": x, "ops": shapeOf(ops), "msg": msg, "fresh": fresh})
+	e.tr.Emit(common.Ev{"ev": "panic", "x": x, "ops": shapeOf(ops), "msg": msg, "fresh": fresh, "scen": e.scen})
 }
 
 // runSeq executes one sequenced COMPOUND synchronously and logs it.
@@ -489,7 +494,7 @@ func (e *env) exchangeID(own string, ver int, csBase map[uint64]uint32) (r exidR
 	}}
 	res, pan := e.call(args)
 	if pan != "" {
-		e.tr.Emit(common.Ev{"ev": "panic", "x": 0, "ops": []string{"EXCHANGE_ID"}, "msg": pan, "fresh": true})
+		e.tr.Emit(common.Ev{"ev": "panic", "x": 0, "ops": []string{"EXCHANGE_ID"}, "msg": pan, "fresh": true, "scen": e.scen})
 		return r, true
 	}
 	ev := common.Ev{"ev": "exid", "own": own, "ver": ver, "st": statusName(res.Status), "cid": 0, "conf": false, "sq": 0}
@@ -528,7 +533,7 @@ func (e *env) createSession(cid uint64, known bool, seq, base uint32) (r crsesRe
 	}}
 	res, pan := e.call(args)
 	if pan != "" {
-		e.tr.Emit(common.Ev{"ev": "panic", "x": 0, "ops": []string{"CREATE_SESSION"}, "msg": pan, "fresh": true})
+		e.tr.Emit(common.Ev{"ev": "panic", "x": 0, "ops": []string{"CREATE_SESSION"}, "msg": pan, "fresh": true, "scen": e.scen})
 		return r, true
 	}
 	c := 0
@@ -557,7 +562,7 @@ func (e *env) destroySession(sess [16]byte, known bool) (ok, panicked bool) {
 	}}
 	res, pan := e.call(args)
 	if pan != "" {
-		e.tr.Emit(common.Ev{"ev": "panic", "x": 0, "ops": []string{"DESTROY_SESSION"}, "msg": pan, "fresh": true})
+		e.tr.Emit(common.Ev{"ev": "panic", "x": 0, "ops": []string{"DESTROY_SESSION"}, "msg": pan, "fresh": true, "scen": e.scen})
 		return false, true
 	}
 	s := 0
@@ -575,7 +580,7 @@ func (e *env) destroyClientID(cid uint64, known bool) (ok, panicked bool) {
 	}}
 	res, pan := e.call(args)
 	if pan != "" {
-		e.tr.Emit(common.Ev{"ev": "panic", "x": 0, "ops": []string{"DESTROY_CLIENTID"}, "msg": pan, "fresh": true})
+		e.tr.Emit(common.Ev{"ev": "panic", "x": 0, "ops": []string{"DESTROY_CLIENTID"}, "msg": pan, "fresh": true, "scen": e.scen})
 		return false, true
 	}
 	c := 0
@@ -597,7 +602,7 @@ func (e *env) trigger() bool {
 	}
 	res, pan := e.call(seqArgs(bogus, 0, 1, false, nil))
 	if pan != "" {
-		e.tr.Emit(common.Ev{"ev": "panic", "x": 0, "ops": []string{"SEQUENCE"}, "msg": pan, "fresh": true})
+		e.tr.Emit(common.Ev{"ev": "panic", "x": 0, "ops": []string{"EXPIRE"}, "msg": pan, "fresh": true, "scen": e.scen})
 		return false
 	}
 	e.tr.Emit(common.Ev{"ev": "trigger", "st": statusName(res.Status)})
